@@ -2,7 +2,10 @@ package main
 
 import (
 	"fmt"
+	"os"
 )
+
+var schedTrace = os.Getenv("GOSYM_SCHEDTRACE") != ""
 
 // Cooperative goroutine scheduler.
 //
@@ -22,6 +25,7 @@ type coro struct {
 	started   bool
 	cond      func() bool // nil: runnable
 	callDepth int
+	where     string // what it is blocked on (diagnostics)
 }
 
 type sched struct {
@@ -97,6 +101,9 @@ func (in *Interp) spawn(fr *Frame, fnv Value, args []Value) {
 	me := s.cur
 	c := &coro{id: len(s.coros), wake: make(chan struct{})}
 	s.coros = append(s.coros, c)
+	if schedTrace {
+		fmt.Fprintf(os.Stderr, "SCHED g%d spawns g%d%s\n", me.id, c.id, in.where())
+	}
 	go func() {
 		<-c.wake
 		if s.killing {
@@ -110,6 +117,9 @@ func (in *Interp) spawn(fr *Frame, fnv Value, args []Value) {
 		defer func() {
 			r := recover()
 			c.done = true
+			if schedTrace {
+				fmt.Fprintf(os.Stderr, "SCHED g%d ends (%v)\n", c.id, r)
+			}
 			if s.killing {
 				s.killAck <- struct{}{}
 				return
@@ -156,6 +166,10 @@ func (in *Interp) block(cond func() bool, what string) {
 		panic(mergeFail{"blocking operation inside merged callee"})
 	}
 	me := s.cur
+	me.where = what + in.where()
+	if schedTrace {
+		fmt.Fprintf(os.Stderr, "SCHED g%d blocks: %s\n", me.id, me.where)
+	}
 	for !cond() {
 		me.cond = cond
 		next := s.pick(me)
@@ -164,7 +178,7 @@ func (in *Interp) block(cond func() bool, what string) {
 				continue
 			}
 			me.cond = nil
-			in.unsupported("deadlock: " + what + " blocks and no goroutine can run")
+			in.unsupported("deadlock: " + what + " blocks and no goroutine can run; blocked: " + in.blockedDump())
 		}
 		in.switchTo(me, next)
 	}
@@ -222,8 +236,8 @@ func (in *Interp) fireTimer() bool {
 		return false
 	}
 	in.timerFires++
-	if in.timerFires > 64 {
-		in.unsupported("more than 64 timer expiries on one path")
+	if in.timerFires > 512 {
+		in.unsupported("more than 512 timer expiries on one path; blocked: " + in.blockedDump())
 	}
 	if best.at > in.now {
 		in.now = best.at
@@ -309,4 +323,17 @@ func (in *Interp) wg(p Value) *int {
 		in.wgs[k] = c
 	}
 	return c
+}
+
+func (in *Interp) blockedDump() string {
+	if in.sch == nil {
+		return ""
+	}
+	out := ""
+	for _, c := range in.sch.coros {
+		if !c.done && c.cond != nil {
+			out += fmt.Sprintf("[g%d %s] ", c.id, c.where)
+		}
+	}
+	return out
 }
